@@ -5,7 +5,9 @@ package harness
 // C16 — determinism: the replay comparison (a TEST, reported as a test; the proofs are in lean/Comdex/Props/C16.lean).
 //
 // One generated workload (a pure function of VERIF_SEED) over the DeFi modules is executed from the SAME genesis on
-//   A, B            two fresh in-process application instances (sequentially, own MemDB each)
+//   A, B            two fresh in-process application instances, sequentially in ONE process (own MemDB each); between A
+//                   and B a different WARM-UP workload runs on a throw-away instance (twin-flipped fixture), so that B
+//                   starts from another process history than A and than the children; thorough adds C after a longer one
 //   childA, childB  two fresh OS processes: this test binary re-executed with VERIF_C16_CHILD=<seed>:<blocks>:<tier>
 //                   (childA with GOMAXPROCS=1, childB with the default and GOGC=20, so that scheduler and GC differ)
 // Blocks go through the real ABCI surface: BeginBlock (all module BeginBlockers), signed transactions through
@@ -14,7 +16,7 @@ package harness
 // own Add…/Wasm…/SetTwa entry points inside a block — they are part of the replayed block content on every instance.
 // After every Commit: an ordered dump of EVERY IAVL store of the multistore (all module KV stores, bank balances
 // included), all bank balances again through the bank keeper, the IAVL app hash and the block's transaction results
-// (code, codespace, data, gas wanted/used, events of every DeliverTx) and validator updates are hashed. Trace line per block:  det.block  height  ok|empty  txOk txFail  hashA hashB hashChildA hashChildB
+// (code, codespace, data, gas wanted/used, events of every DeliverTx) and validator updates are hashed. Trace line per block:  det.block  height  ok|empty  txOk txFail  hashA hashB hashChildA hashChildB [hashC]
 // Monitor `replay_equal` (Lean driver): the four hashes are equal.
 //
 // In addition the four map-iteration sites are hammered directly: each real function is run many times on identical
@@ -353,9 +355,14 @@ type c16BlockRec struct {
 
 // c16Run executes the workload for `seed` on a fresh instance and returns one record per block.
 func c16Run(t testing.TB, seed uint64, blocks int, thor bool) ([]c16BlockRec, map[string]int) {
+	return c16RunVariant(t, seed, blocks, thor, 0)
+}
+
+func c16RunVariant(t testing.TB, seed uint64, blocks int, thor bool, variant int) ([]c16BlockRec, map[string]int) {
 	in := c16NewInst(t)
 	defer in.close()
 	w := c16NewWorkload(in, seed, thor)
+	w.variant = variant
 	var out []c16BlockRec
 	for b := 0; b < blocks; b++ {
 		dt := w.blockGap(b)
@@ -365,6 +372,14 @@ func c16Run(t testing.TB, seed uint64, blocks int, thor bool) ([]c16BlockRec, ma
 		out = append(out, c16BlockRec{in.height, hash, in.txOk, in.txFail, c16DumpString(in.lastDump)})
 	}
 	return out, in.stats
+}
+
+// c16Warmup gives the PROCESS a different history between two replays of the same blocks: the twin-flipped fixture
+// (variant 1, three blocks, no orders) on a throw-away instance — its last ranged-pool evaluations agree with the first
+// ones of the next replay in all but one argument. Anything that survives an application instance (package-level
+// memo, cache, counter) is in a different state afterwards than in a fresh process.
+func c16Warmup(t testing.TB, seed uint64) {
+	c16RunVariant(t, seed, 3, false, 1)
 }
 
 func c16Child(t *testing.T, spec string) {
@@ -447,7 +462,16 @@ func TestC16(t *testing.T) {
 		go func() { r, e := c16Spawn(t, sd, blocks, thor, "GOMAXPROCS=1"); chA <- res{r, e} }()
 		go func() { r, e := c16Spawn(t, sd, blocks, thor, "GOGC=20"); chB <- res{r, e} }()
 		recA, stats := c16Run(t, sd, blocks, thor)
+		// instance B replays the same blocks in the same process AFTER instance A and after a different warm-up workload
+		c16Warmup(t, sd)
 		recB, _ := c16Run(t, sd, blocks, thor)
+		// thorough, first seed: a third replay after a longer, unrelated history (another seed's workload)
+		var recC []c16BlockRec
+		if thor && s == 0 {
+			c16Run(t, sd+500, 12, thor)
+			c16Warmup(t, sd+1)
+			recC, _ = c16Run(t, sd, blocks, thor)
+		}
 		ra, rb := <-chA, <-chB
 		if ra.err != nil || rb.err != nil {
 			t.Fatalf("c16 child failed: %v %v", ra.err, rb.err)
@@ -468,13 +492,19 @@ func TestC16(t *testing.T) {
 			if recA[i].TxOk > 0 {
 				outcome = "ok"
 			}
-			tr.Line("det.block", i64(recA[i].Height), outcome, strconv.Itoa(recA[i].TxOk), strconv.Itoa(recA[i].TxFail), recA[i].Hash, b.Hash, ca.Hash, cb.Hash)
+			fields := []string{i64(recA[i].Height), outcome, strconv.Itoa(recA[i].TxOk), strconv.Itoa(recA[i].TxFail), recA[i].Hash, b.Hash, ca.Hash, cb.Hash}
+			cOK := true
+			if recC != nil {
+				fields = append(fields, get(recC).Hash)
+				cOK = get(recC).Hash == recA[i].Hash
+			}
+			tr.Line("det.block", fields...)
 			tr.Count("blocks")
-			if firstDiff && !(recA[i].Hash == b.Hash && b.Hash == ca.Hash && ca.Hash == cb.Hash) {
+			if firstDiff && !(recA[i].Hash == b.Hash && b.Hash == ca.Hash && ca.Hash == cb.Hash && cOK) {
 				firstDiff = false
 				tr.Count("diverging-seeds")
 				tr.Set(fmt.Sprintf("first-divergence-seed-%d", sd), map[string]string{
-					"height": i64(recA[i].Height), "A": recA[i].Dump, "B": b.Dump, "childA": ca.Dump, "childB": cb.Dump})
+					"height": i64(recA[i].Height), "A": recA[i].Dump, "B(after warm-up)": b.Dump, "childA": ca.Dump, "childB": cb.Dump, "C": get(recC).Dump})
 			}
 		}
 	}
